@@ -5,6 +5,9 @@ pub enum SortKind {
     Plain,
     /// constructor relation indices
     Enum(Vec<usize>),
+    /// member type of a model (flat view: an ordinary sort whose elements each belong to one
+    /// model element through the membership relation; created by `new_<t>(parent)`)
+    Member { model_sort: usize, membership_rel: usize },
 }
 
 #[derive(Clone, Debug, PartialEq)]
